@@ -33,20 +33,23 @@ def run_impl(line):
     from crysp import aes as A
     from crysp.poly import Poly
     t = line.split(); op, a = t[0], t[1:]
-    if op == 'aes.rt':
+    if op in ('aes.rt', 'aes.rtd'):
+        # ONE cipher object performs the whole line, so that whatever a call caches in (or does to) the object meets
+        # the following calls:   aes.rt : enc(B), dec(enc(B)), dec(B), enc(dec(B)), enc(B) again
+        #                        aes.rtd: dec(B), enc(dec(B)), enc(B), dec(enc(B)), dec(B) again
+        # (between them: enc / dec as the first call of a new object, enc after dec, dec after enc, and the repetition)
         k, b = unhx(a[0]), unhx(a[1])
-        def chain(first, second):
-            try:
-                x = getattr(A.AES(k), first)(b)
-            except Exception:
-                return 'ERR', 'ERR'
-            try:
-                y = getattr(A.AES(k), second)(x)
-            except Exception:
-                return hx(x), 'ERR'
-            return hx(x), hx(y)
-        e, de = chain('enc', 'dec'); d, ed = chain('dec', 'enc')
-        return ';'.join((e, de, d, ed))
+        try: E = A.AES(k)
+        except Exception: E = None
+        def step(f, x):
+            if E is None or x is None: return None
+            try: return getattr(E, f)(x)
+            except Exception: return None
+        if op == 'aes.rt':
+            e = step('enc', b); de = step('dec', e); d = step('dec', b); ed = step('enc', d); again = step('enc', b)
+        else:
+            d = step('dec', b); ed = step('enc', d); e = step('enc', b); de = step('dec', e); again = step('dec', b)
+        return ';'.join('ERR' if x is None else hx(x) for x in (e, de, d, ed, again))
     if op == 'aes.rtc':
         f, gi = PAIRS[a[0]]; s = unhx(a[1])
         def chain(first, second):
